@@ -54,6 +54,12 @@ class FakeTLSSocket(object):
         self.handshaken = False
 
     def do_handshake(self):
+        # a handshake with a peer that is gone fails with the socket's own error, not with an SSLError
+        tx, rx = getattr(self.raw, 'tx', None), getattr(self.raw, 'rx', None)
+        if tx is not None and (tx.reader_closed or tx.writer_closed):
+            raise ConnectionResetError(104, 'Connection reset by peer')
+        if rx is not None and rx.eof_visible():
+            raise OSError(107, 'Transport endpoint is not connected')
         if self.script.get('handshake') == 'fail':
             raise ssl.SSLError(1, '[SSL] scripted handshake failure')
         self.handshaken = True
